@@ -34,13 +34,13 @@ ASSUMPTIONS = [
     "Excl: options other than -m/-o/-g/-p in insopts/diropts/exeopts (external `install` fallback) belong to C32",
     "Excl: doins/doexe/dobin/... given a directory without -r (PMS does not say whether it is skipped or fatal); only dodoc and dohtml are required to reject it",
     "Excl: symlinks as doins/dodoc arguments in EAPI 0-3 (PMS: undefined before doins-symlink); compressed man pages (foo.1.gz) and multi-character sections (foo.3pm: man3 vs man3pm); man page names with a language code AND -i18n in EAPI 2-3",
-    "Excl: modes of implicitly created ancestor directories; ownership (runs as root, -o/-g not in the alphabet)",
+    "Excl: modes of implicitly created ancestor directories; ownership itself is not judged: -o/-g appear only with the current uid/gid, combined with setuid/setgid modes, to check that the requested special bits survive the chown",
     "Excl: helpers banned per EAPI (dohard 4+, dohtml/dolib 7+) are banned on the bash side and only checked by the e2e tier",
     "umask 022 during every invocation",
 ]
 BOUNDS = {
-    "quick": "fast: 16 helpers x EAPI {0,2,3,4,6,7,8} x up to 3 destinations x up to 3 option strings x 4-12 argument lists (2362 invocations); sym: all 25 x 23 (source, link) pairs incl. un-normalised spellings; e2e: 18 real-daemon src_install sessions (every helper once; 5/4/9 sessions for EAPI 0/4/8, one per band, covering each band's rules)",
-    "thorough": "fast: EAPI 0-8, destinations {default,/,/usr,/opt/x,/opt/x/,dir with space} x all option strings x all argument lists (6391 invocations); sym: 131 x 76 pairs; e2e: 504 real-daemon sessions (56 per EAPI 0-8)",
+    "quick": "fast: 16 helpers x EAPI {0,2,3,4,6,7,8} x up to 3 destinations x up to 3 option strings x 4-12 argument lists, plus {-m4755,-m2755,-m6755} x {-o uid,-g gid} in insopts/exeopts/diropts (2572 invocations); sym: all 25 x 23 (source, link) pairs incl. un-normalised spellings; e2e: 18 real-daemon src_install sessions (every helper once; 5/4/9 sessions for EAPI 0/4/8, one per band, covering each band's rules)",
+    "thorough": "fast: EAPI 0-8, destinations {default,/,/usr,/opt/x,/opt/x/,dir with space} x all option strings x all argument lists, same special-bit/owner options (6661 invocations); sym: 131 x 76 pairs; e2e: 504 real-daemon sessions (56 per EAPI 0-8)",
 }
 
 TIME_CAP = {"thorough": 840}
@@ -604,6 +604,13 @@ def fast_invocations(tier):
             for a in (["p"], ["d"], ["p", "f.txt"], ["f.txt", "p"]):
                 add("dodoc", eapi, {"docinto": docinto}, a)
                 add("dodoc", eapi, {"docinto": docinto}, a, flags=["-r"])
+        # special mode bits together with an owner/group option: chown after chmod would strip setuid/setgid from files
+        for opt in special_owner_opts():
+            add("doins", eapi, {"insopts": opt}, ["f.txt", "x.sh"])
+            add("doins", eapi, {"insinto": "/opt/x", "insopts": opt, "diropts": opt}, ["p"], flags=["-r"])
+            add("doexe", eapi, {"exeinto": "/opt/x", "exeopts": opt}, ["x.sh"])
+            add("dodir", eapi, {"diropts": opt}, ["/a", "/b/c"])
+            add("keepdir", eapi, {"diropts": opt}, ["/var/lib/x"])
         add("doinfo", eapi, {}, ["v.info"])
         add("doinfo", eapi, {}, ["v.info", "f.txt"])
         for a in (["man/foo.1"], ["man/foo.de.1"], ["man/foo.pt_BR.1"], ["man/bar.3"], ["man/baz.n"], ["man/nosect"], ["man/foo.1", "man/bar.3"], ["man/foo.1", "man/nosect"]):
@@ -635,6 +642,11 @@ def fast_invocations(tier):
             for src, link in (("/usr/bin/real", "/usr/bin/hard"), ("/usr/bin/real", "/other/dir/hard"), ("/real", "/hard")):
                 add("dohard", eapi, {}, [src, link], pre_files={src: "realfile\n"})
     return out
+
+
+def special_owner_opts():
+    """{-m4755, -m2755, -m6755} x {-o <uid>, -g <gid>} with the current ids, so the chown always succeeds."""
+    return [f"{m} {o}" for m in ("-m4755", "-m2755", "-m6755") for o in (f"-o {os.getuid()}", f"-g {os.getgid()}")]
 
 
 def sym_universe(tier):
